@@ -98,7 +98,19 @@ def roundtrip(model, fmt, sort, pretty, protocol, tmp):
     if fmt == "dict":
         d = cio.model_to_dict(model, sort=sort)
         d = copy.deepcopy(d)  # the document, detached from the model it was made from
-        return cio.model_from_dict(copy.deepcopy(d)), d
+        # a saved document is data that can be loaded any number of times: loading must not consume it, and the same
+        # dictionary loaded twice gives the same model (since seeded change C11-9)
+        doc = copy.deepcopy(d)
+        first = cio.model_from_dict(doc)
+        if doc != d:
+            lost = [k for k in d if k not in doc] or [f"{lst}[{i}]: {sorted(set(a) - set(b))}" for lst in ("reactions", "metabolites", "genes")
+                                                      for i, (a, b) in enumerate(zip(d.get(lst, []), doc.get(lst, []))) if a != b][:3]
+            raise PropertyViolation("dict:document-changed-by-loading", f"model_from_dict changed the dictionary it was given: {lost}")
+        again = cio.model_from_dict(doc)
+        dd = observe.diff(observe.snapshot(first), observe.snapshot(again), limit=4)
+        if dd:
+            raise PropertyViolation("dict:second-load-differs", f"the same dictionary loaded twice gives different models: {dd}")
+        return first, d
     doc = pickle.dumps(model, protocol=protocol)
     return pickle.loads(doc), None
 
